@@ -3,9 +3,11 @@ CONSTANTS
   NT = 2
   NU = 1
   NA = 1
+  Throwing = FALSE
+  WithMake = FALSE
   Vals = {1, 2}
   K = 4
 INVARIANTS TypeOK WellFormed LastAgrees AgreesWithHistory Conservation
-PROPERTIES RefProtocolLegalH IndependenceH CopiesEqualSourceH
+PROPERTIES RefProtocolLegalH IndependenceH CopiesEqualSourceH NothingGivenByThrowH
 CONSTRAINT HistBound
 VIEW View
